@@ -749,14 +749,24 @@ fn run_once(p: &Value, prefix: &[usize], controlled: bool, out: &mut String, pid
             TID.with(|x| x.set(t));
             la::set_thread_id(t as u8);
             yield_point();
+            // every operation of a program is in contract: a panic inside one is recorded (law
+            // op_returns) and the thread goes on, so that the execution still ends
+            let mut run = |w: &mut Worker, o: &Value| {
+                if std::panic::catch_unwind(std::panic::AssertUnwindSafe(|| exec(w, o))).is_err() {
+                    la::set_window(0);
+                    let mut e = LogEv::new("op_panic", tnum());
+                    e.op = Box::leak(o["op"].as_str().unwrap_or("").to_string().into_boxed_str());
+                    push(e);
+                }
+            };
             for o in &ops {
-                exec(&mut w, o);
+                run(&mut w, o);
             }
             // the thread's remaining handles are dropped by the thread
             for k in 0..w.own.len() {
                 if w.own[k].h.is_some() {
                     let o = serde_json::json!({"op": "drop", "i": k});
-                    exec(&mut w, &o);
+                    run(&mut w, &o);
                 }
             }
             if w.shared.is_some() {
